@@ -237,7 +237,7 @@ def canonical(line, sizes=None):
 # ---------------------------------------------------------------------------------------------------------
 # independent oracle on the harness' own manager table
 
-LEAK_ON_REFUSAL = {"arena": "K24", "map": "K25"}     # allowed by the property text (reclaimable by discarding the manager)
+LEAK_ON_REFUSAL = {"arena": "K-new-1", "map": "K-new-2"}     # allowed by the property text (reclaimable by discarding the manager)
 
 
 def oracle_container(c, line):
@@ -359,7 +359,7 @@ def run(ctx):
     except Exception as ex:
         mem_sweep = None
         ctx.broken.append("oracle: vlib/mem_sweep.py not importable: %r" % (ex,))
-    if mem_sweep is not None and hasattr(mem_sweep, 'check'):
+    if mem_sweep is not None:
         sweep_new, sweep_known = mem_sweep.check(ctx, known, widen=bool(corr or not proved or not model))
 
     new = [o for o in orc if not (o["known"] and o["known"] in known)]
